@@ -287,6 +287,18 @@ Theorem C01_tie_Rows : forall fuel ev f tm,
 Proof. exact binlogEvent_Rows_equiv. Qed.
 Print Assumptions C01_tie_Rows.
 
+(* the value decoder behind every delivered cell: CellBytes, all 23 cases of its switch, translated from /repo on every
+   run and proved equal to the model function cell_bytes the row-image conversion of Model/Streamer.v calls (flat: a nil
+   and an empty slice are both "no bytes"; premises: bytes, uint16 metadata, the position is an index into the row data) *)
+From GB Require Proofs.TransEquivCellBytesDefs Proofs.TransEquivCellBytes.
+From GBGen Require TransCellBytes.
+Theorem C01_tie_CellBytes : forall ffmt tz jsonp fuel d pos typ meta uns,
+  (1000 <= fuel)%nat -> wf_bytes d -> 0 <= meta < 65536 -> Z.of_nat pos < 2 ^ 62 -> (pos <= List.length d)%nat ->
+  res_sim (TransCellBytes.CellBytes_g ffmt (print_timestamp tz) jsonp fuel d (Z.of_nat pos) typ meta uns)
+          (TransEquivCellBytesDefs.flat (cell_bytes ffmt tz jsonp d pos typ meta uns)).
+Proof. exact TransEquivCellBytes.CellBytes_equiv. Qed.
+Print Assumptions C01_tie_CellBytes.
+
 (* ---------------------------------------------------------------------------------------------------------------
    Source pins.  The model functions used above are a hand-written reading of these Go functions (they have closures,
    channels, interfaces or maps, which the translator gotrans does not accept).  gosync regenerates their normalised
